@@ -312,20 +312,26 @@ def carrier_types(ck, rule):
                 return True
         return False
 
-    def walk(stmts, chain):
-        for s in stmts:
-            if isinstance(s, ast.Assign) and any(dotted(t) == "vdtype" for t in s.targets) and dotted(s.value) in ("float", "np.float64", "np.float32"):
-                ck.check(ctx_ok(chain), rule, fm, "the normaliser imposes a float value type only for None, strings, Decimal or after a non-trivial scale/bias map",
-                         "vdtype = %s under %s" % (src(s.value), [src(t)[:40] for t in chain]), s,
-                         "Python integers would be converted to binary64 before scaling: bits beyond the 53-bit mantissa are lost")
-            if isinstance(s, ast.If):
-                walk(s.body, chain + [s.test])
-                walk(s.orelse, chain + [s.test])
-            elif isinstance(s, (ast.For, ast.While, ast.With, ast.Try)):
-                walk(getattr(s, "body", []), chain)
-                for h in getattr(s, "handlers", []):
-                    walk(h.body, chain)
-    walk(fm.node.body, [])
+    # path-based: the guards are the substituted tests, so named sub-conditions (has_scale = self.scale != 1) and helpers are transparent
+    from ..common import fpaths
+    seen = set()
+    nst = 0
+    for pf in fpaths(prog, fm):
+        for st in pf.stores:
+            if st.path != "vdtype" or dotted(st.raw_value) not in ("float", "np.float64", "np.float32"):
+                continue
+            nst += 1
+            chain = [g[0] for g in st.guards]
+            okc = ctx_ok(chain)
+            key = (id(st.stmt), okc)
+            if key in seen:
+                continue
+            seen.add(key)
+            ck.check(okc, rule, fm, "the normaliser imposes a float value type only for None, strings, Decimal or after a non-trivial scale/bias map",
+                     "vdtype = %s under %s" % (src(st.raw_value), [src(t)[:40] for t in chain]), st.stmt,
+                     "Python integers would be converted to binary64 before scaling: bits beyond the 53-bit mantissa are lost")
+    if nst == 0:
+        ck.note("normaliser never imposes a float value type")
 
 
 def no_truncation_before_rounding(ck, rule):
